@@ -66,7 +66,7 @@ def _cond(d, depth, sp):
 
 def _andor(d, depth, sp):
     fn = d.choice(['AND', 'OR'])
-    n = d.choice([1, 2, 2, 3, 3, 4, 5, 8])
+    n = d.choice([1, 2, 2, 3, 3, 4, 5, 8, 9, 10, 11, 30])
     args = []
     for _ in range(n):
         k = d.pick(8)
